@@ -79,7 +79,7 @@ def g_op(line):
         if a[0] == 'parse':
             return '(OParse %s)' % g_str(a[1])
         if a[0] == 'resolve':
-            prs = ['(%s, %s)' % (g_nat(a[i]), g_nat(a[i + 1])) for i in range(1, len(a) - 1, 2)]
+            prs = ['(%s%%nat, %s%%nat)' % (g_nat(a[i]), g_nat(a[i + 1])) for i in range(1, len(a) - 1, 2)]
             return '(OResolve [%s])' % '; '.join(prs) if prs else '(OResolve (@nil (nat * nat)))'
         if a[0] == 'rescale':
             return '(ORescale %s)' % g_len_in(a[1])
@@ -192,7 +192,7 @@ def cross_evaluate(cases, model_out, workdir, max_cases=25, max_ops=60, max_char
     os.makedirs(workdir, exist_ok=True)
     path = os.path.join(workdir, 'VmCases.v')
     with open(path, 'w') as f:
-        f.write('From Coq Require Import QArith.\nFrom PT Require Import Script.\nLocal Open Scope list_scope.\nImport ListNotations.\n')
+        f.write('From Coq Require Import QArith.\nFrom PT Require Import Script.\nLocal Close Scope Q_scope.\nLocal Open Scope nat_scope.\nLocal Open Scope list_scope.\nImport ListNotations.\n')
         for k, (cid, ops, exp) in enumerate(picked):
             f.write('Definition ops_%d : list op := [%s].\n' % (k, ';\n  '.join(ops)))
             f.write('Definition exp_%d : list res := [%s].\n' % (k, ';\n  '.join(exp)))
@@ -207,7 +207,7 @@ def cross_evaluate(cases, model_out, workdir, max_cases=25, max_ops=60, max_char
     for k, (cid, ops, exp) in enumerate(picked):
         p1 = os.path.join(workdir, 'VmCase_%d.v' % k)
         with open(p1, 'w') as f:
-            f.write('From Coq Require Import QArith.\nFrom PT Require Import Script.\nLocal Open Scope list_scope.\nImport ListNotations.\n')
+            f.write('From Coq Require Import QArith.\nFrom PT Require Import Script.\nLocal Close Scope Q_scope.\nLocal Open Scope nat_scope.\nLocal Open Scope list_scope.\nImport ListNotations.\n')
             f.write('Definition ops_0 : list op := [%s].\nDefinition exp_0 : list res := [%s].\n' % (';\n  '.join(ops), ';\n  '.join(exp)))
             f.write('Goal run_case ops_0 = exp_0. Proof. vm_compute. reflexivity. Qed.\n')
         r1 = subprocess.run('timeout 300 coqc -Q %s PT -o %s %s' % (os.path.join(vf.VERIF, 'coq/theories'), os.path.join(workdir, 'VmCase_%d.vo' % k), p1),
